@@ -558,6 +558,16 @@ impl<'a> Run<'a> {
                 }
             }
             indag.sort_by(|a, b| a.as_str().cmp(&b.as_str()));
+            // jobs already (re)considered in the current generation: the only way the engine's
+            // generation counter influences its behaviour (spec/PPGEngine.tla, cgen)
+            let mut cgen: Vec<String> = snap
+                .jobs
+                .iter()
+                .filter(|j| j.last_considered_in_gen == snap.gen)
+                .map(|j| j.job_id.clone())
+                .collect();
+            cgen.sort();
+            o.insert("cgen".into(), json!(cgen));
             for (u, d, r, i) in snap.edges.iter() {
                 ereq.insert(format!("{}!!!{}", u, d), json!(r));
                 einv.insert(format!("{}!!!{}", u, d), json!(i));
@@ -565,6 +575,7 @@ impl<'a> Run<'a> {
         } else {
             o.insert("phase".into(), json!("Dead"));
             o.insert("qlen".into(), json!(0));
+            o.insert("cgen".into(), json!([]));
         }
         o.insert("outs".into(), Value::Object(outs));
         o.insert("jst".into(), Value::Object(jst));
@@ -603,6 +614,23 @@ impl<'a> Run<'a> {
             msg,
             h.map(|h| h.into_iter().collect()).unwrap_or_default(),
         )
+    }
+
+    /// iteration orders of the pruned dag (hook snapshot): what spec/PPGEngine.tla calls `ord`
+    pub fn ord_json(&self) -> Value {
+        if self.b.dead {
+            return json!({"up": {}, "dn": {}, "nodes": [], "jobs": [], "topo": []});
+        }
+        let snap = self.g.verif_snapshot();
+        let mut up = Map::new();
+        let mut dn = Map::new();
+        let mut jobs = vec![];
+        for (j, u, d) in snap.order.iter() {
+            up.insert(j.clone(), json!(u));
+            dn.insert(j.clone(), json!(d));
+            jobs.push(json!(j));
+        }
+        json!({"up": up, "dn": dn, "nodes": snap.dag_nodes, "jobs": jobs, "topo": snap.topo})
     }
 
     pub fn steps_json(&self) -> Value {
